@@ -13,7 +13,8 @@ open Rpylib Rpylib.Pricers
   vdig <a> <b> <psi>                          -> `<v_digital>`
   terms <df> <K> <[t0,t1,…]>                  -> `<put>`           (first term halved)
   bs <eps> <sigma> <spot> <T> <df> <fwd> <K> <lg> <sd> <Φ(d1)> <Φ(d2)> <Φ(-d1)> <Φ(-d2)> <dfDiv>
-                                              -> `<deg 0|1> <call> <put> <digital> <forward> <d1> <d2>`
+                                              -> `<deg 0|1> <call> <put> <digital> <forward> <d1> <d2> <digital's own d2>`
+  series <df> <K> <[re_0,re_1,…]> <[v_0,v_1,…]> -> `<K*df*Σ' re_k v_k> <df*Σ' re_k v_k>`   (cosPut / cosDigital of the halved-first sum of the products)
 -/
 def step (t : List String) : String :=
   match t.head?, (t.drop 1).mapM parseRat? with
@@ -36,9 +37,16 @@ def step (t : List String) : String :=
     let Φdig : Rat → Rat := fun _ => p2
     (if deg then "1" else "0") ++ " " ++ showRat (bsCall Φ deg df fwd K lg sd) ++ " " ++ showRat (bsPut Φ deg df fwd K lg sd)
       ++ " " ++ showRat (bsDigital Φdig deg df fwd K lg sd) ++ " " ++ showRat (bsForward spot dfDiv K df)
-      ++ " " ++ showRat d1 ++ " " ++ showRat d2
+      ++ " " ++ showRat d1 ++ " " ++ showRat d2 ++ " " ++ showRat (bsDigitalArg lg sd)
   | _, _ =>
     match t with
+    | ["series", df, K, rs, vs] =>
+      match parseRat? df, parseRat? K, parseRatList? rs, parseRatList? vs with
+      | some df, some K, some rs, some vs =>
+        if rs.length ≠ vs.length then "bad-op" else
+        let s := halfFirstSum (List.zipWith (· * ·) rs vs)
+        showRat (cosPut df K s) ++ " " ++ showRat (cosDigital df s)
+      | _, _, _, _ => "bad-op"
     | ["terms", df, K, ts] =>
       match parseRat? df, parseRat? K, parseRatList? ts with
       | some df, some K, some ts => showRat (cosPutOfTerms df K ts)
